@@ -66,7 +66,22 @@ def wait_calls(rp, seed, tier):
     return wait_sim.run_all(rp, tier)
 
 
-CHECKS = {'wait-calls': wait_calls, 'sched-histories': sched_histories, 'bf-histories': bf_histories, 'lm-placements': lm_placements,
+def slot_formats(rp, seed, tier):
+    from harness import slot_sim
+    return slot_sim.run_all(rp, tier)
+
+
+def pilot_sizing(rp, seed, tier):
+    from harness import pilot_sim
+    return pilot_sim.run_all(rp, tier)
+
+
+def node_files(rp, seed, tier):
+    from harness import nodefile_sim
+    return nodefile_sim.run_all(rp, tier)
+
+
+CHECKS = {'node-files': node_files, 'pilot-sizing': pilot_sizing, 'slot-formats': slot_formats, 'wait-calls': wait_calls, 'sched-histories': sched_histories, 'bf-histories': bf_histories, 'lm-placements': lm_placements,
           'staging-e2e': staging_e2e, 'task-scripts': task_scripts}
 
 
